@@ -12,3 +12,4 @@ from . import superrun  # noqa
 from . import lineage  # noqa
 from . import compute  # noqa
 from . import overlap  # noqa
+from . import multirun  # noqa
